@@ -23,6 +23,10 @@ func init() {
 			runBounded(rep, opts, "c07p", map[string]string{"ssa/zz_verif_pipeline_names_test.go": "harness/c07_pipeline_test.go"}, []string{"./ssa/"}, "TestZZVerifPipelineTypeNames",
 				[]string{"VERIF_C07=1"}, 1, "descriptor-name-iff-identical", "a fixed family of 78 types (3003 pairs): the 56 above plus signatures whose parameters/results need the raw conversion (function-typed and named-function-typed parameters, variadic vs slice, nested in slice/pointer/map/chan/struct/interface)",
 				"-tags", "llvm14")
+			// the method tables the run-time proofs assume (names = method ids, strictly sorted, satisfaction agrees with go/types)
+			runBounded(rep, opts, "c07m", map[string]string{"ssa/zz_verif_method_tables_test.go": "harness/c07_methods_test.go"}, []string{"./ssa/"}, "TestZZVerifMethodTables",
+				[]string{"VERIF_C07=1"}, 1, "method-tables-match-go-types", "34 emitted method tables (value and pointer types with promoted, unexported, cross-package, value- and pointer-receiver methods over three packages; 15 interfaces incl. embedded and empty ones) and all 280 (type, interface) pairs",
+				"-tags", "llvm14")
 		}}
 	PropConfigs["C20"] = &PropConfig{ID: "C20", Modules: []Module{{Dir: ".", Patterns: []string{"./internal/crosscompile"}}}, Specs: []string{"common.smt2", "paths.smt2"}}
 	PropConfigs["C10"] = &PropConfig{ID: "C10", Modules: []Module{rtModule}, Specs: []string{"common.smt2"}}
